@@ -72,15 +72,24 @@ class Config(CIBaseModel):
         global _config
         if _config is not None:
             raise RuntimeError('Config has already been initialized.')
-        try:
-            self._normalize_path()
-        finally:
-            _config = self
+        self._normalize_path()
+        _config = self
 
         return self
 
     @model_validator(mode='after')
     def resolve_paths(self):
+        # A load that fails here must not leave a half-initialized singleton
+        # behind.
+        global _config
+        try:
+            self._resolve_paths()
+        except Exception:
+            _config = None
+            raise
+        return self
+
+    def _resolve_paths(self) -> None:
         if getattr(self, 'performance_model') is not None:
             object.__setattr__(
                 self,
@@ -99,7 +108,6 @@ class Config(CIBaseModel):
                 'weather_data_dir',
                 Path(self.file_location(self.weather.weather_data_dir)).resolve(),
             )
-        return self
 
     def file_location(self, f: Path | str) -> Path:
         """Get path to a file, checking local and configured paths."""
